@@ -30,7 +30,8 @@ GROUPS_CTL_THOROUGH = [("os2_cap1", 1), ("mixed", 0), ("os2_cap2", -1), ("os2_ma
 
 
 def open_devs(known):
-    return sorted({f["deviation"] for f in known["findings"] if f["status"] == "open" and f.get("deviation")})
+    return sorted({f["deviation"] for f in known["findings"] if f["status"] == "open" and f.get("deviation")
+                   and f.get("side", "ost") == "ost"})
 
 
 def constants(model, retries, dev_name, extra=None):
